@@ -210,6 +210,7 @@ class Labels:
     """order-preserving realisation of abstract ids as concrete Python labels (DESIGN.md §3.1)"""
     STYLES = ("int", "str", "tuple", "mixed")
     STYLES_NUM = STYLES + ("num",)      # opt-in: label sets whose native order differs from ordering_key's
+    STYLES_X = STYLES + ("num", "numstr", "boolstr")   # opt-in: plus float/int/str mixes and bool labels
 
     def __init__(self, style, n=64):
         self.style = style
@@ -223,6 +224,14 @@ class Labels:
             # mixed numeric types: ordering_key sorts by str(type) first ("<class 'float'>" < "<class 'int'>"), while the
             # native "<" interleaves them (0 < 0.5 < 1 < 1.5 ...): ids 0..3 are floats, ids 4.. are ints
             self.l = [i + 0.5 for i in range(4)] + list(range(n - 4))
+        elif style == "numstr":
+            # floats, ints and strings in one model: ordering_key order is float < int < str; among the numbers the native
+            # order interleaves, and a key that also holds a string cannot be sorted natively at all
+            self.l = [i + 0.5 for i in range(3)] + list(range(3)) + ["s%03d" % i for i in range(6, n)]
+        elif style == "boolstr":
+            # bool labels (hash/compare equal to 0 and 1, but are not ints for isinstance(x, bool) dispatch) next to strings;
+            # ordering_key: "<class 'bool'>" < "<class 'str'>"
+            self.l = [False, True] + ["s%03d" % i for i in range(2, n)]
         else:  # ordering_key sorts by str(type): int < str < tuple
             self.l = [i for i in range(3)] + ["s%03d" % i for i in range(3, 6)] + [("t", i) for i in range(6, n)]
         self.inv = {x: i for i, x in enumerate(self.l)}
